@@ -505,6 +505,13 @@ pub fn run(args: &Args) -> i32 {
                     ev.violation(sig, what, json!({"leg": "serial_client_reopen", "k": k}));
                 }
             }
+            // the RTU server task with a port that cannot be opened, appears, and is lost again
+            let mut e = Evidence::new();
+            let problems = rt.block_on(crate::serial::rtu_server_failed_opens(k, &mut e));
+            ev.merge(e);
+            for (sig, what) in problems {
+                ev.violation(sig, what, json!({"leg": "rtu_server_failed_opens", "k": k}));
+            }
             // the sequence restarts at min after a successful opening that ended without a failure
             let mut e = Evidence::new();
             let problems = rt.block_on(crate::serial::serial_client_restart(k, &mut e));
